@@ -31,7 +31,7 @@ NOINL = ("d3_time.dt2milli", "d3_time.milli2dt")
 def registry_closures(ctx):
     def build():
         P = ctx.P
-        ev = new_eval(P, inline_filter=lambda fn: fn.qual not in NOINL)
+        ev = new_eval(P, opaque=list(NOINL))
         reg = ev.resolve_global("d3_time", "d3_time")
         st = ev.new_state(module="d3_time")
         out = {}
@@ -146,6 +146,8 @@ def monthstep(ctx, R):
             cnd = evl.cond(w.test, s2)
             guard_ok = mvar is not None and key(cnd) == "cmp(lt, 12, k + t.month)"
             dvar = [nm for nm, v in s2.env.vars.items() if nm not in (date_p, off_p, mvar) and key(v) in ("deepcopy(t)", "t", "copy.deepcopy(t)", "copy.copy(t)")]
+            if not dvar and key(s2.env.lookup(date_p)) == "t":
+                dvar = [date_p]  # the (immutable) datetime parameter itself is carried
             body_ok = False
             if guard_ok and dvar:
                 s2.env.vars[mvar] = Num.atom("M")
@@ -220,12 +222,23 @@ def range_rule(ctx, R):
     P = ctx.P
     f = P.func(IV + ".range")
     R.saw(f)
+    from ..normalise import fuse_generators
+    from ..cfg import CFG
+
+    fbody = f.node.body
     cfg = ctx.cfg(f)
+    if not cfg.loops:
+        # the enumeration may live in a generator helper consumed by a comprehension: fuse it back into a loop
+        fused = fuse_generators(P, f)
+        if fused is not None:
+            fbody = fused
+            cfg = CFG(fbody)
+            R.note("C17.RANGE: range() analysed after fusing its generator helper into explicit loops")
     t0, t1, dt = f.params[1:4]
     loops = [l for l in cfg.loops]
     whiles = [l for l in loops if isinstance(l["stmt"], ast.While)]
     if not whiles or len(whiles) != len(loops):
-        R.bad("C17.RANGE", f.qual + "|loop shape", where(f), "range() does not enumerate with while-loops (found %d while / %d loops)" % (len(whiles), len(loops)))
+        R.undecided("C17.RANGE", f.qual + "|loop shape", where(f), "range() does not enumerate with while-loops in its own body (found %d while / %d loops): the enumeration recogniser does not apply" % (len(whiles), len(loops)))
         return
     ev = new_eval(P, inline_filter=lambda fn: fn.qual not in (IV + ".ceil", IV + ".floor"))
     st = ev.new_state(f)
@@ -235,7 +248,11 @@ def range_rule(ctx, R):
     st.heap[("self", "_step")] = Opaque("STEP")
     st.heap[("self", "_number")] = Opaque("NUMBER")
     first = min(w["stmt"].lineno for w in whiles)
-    pre = [n for n in f.node.body if n.lineno < first and not isinstance(n, (ast.If, ast.While))]
+    pre = []
+    for n in fbody:
+        if isinstance(n, (ast.If, ast.While)):
+            break
+        pre.append(n)
     ev.block(pre, st, [])
     tvar = None
     lvar = None
@@ -307,7 +324,7 @@ def range_rule(ctx, R):
                         ok = False
         R.check(ok, "C17.RANGE", f.qual + "|%s selection" % tag, where(f, ws), "a boundary is listed iff dt <= 1 or its unit number is divisible by dt", "one pass adds %s: a boundary must be listed exactly when dt <= 1 or number(time) %% dt == 0" % (items,))
     rets = [n for n in cfg.stmt_nodes() if n.kind == "stmt" and isinstance(n.ast, ast.Return)]
-    R.check(len(rets) == 1 and ntext(rets[0].ast.value) == lvar, "C17.RANGE", f.qual + "|returns the list", where(f), "returns the collected boundaries", "range() does not return the collected list")
+    R.check(bool(rets) and all(ntext(r_.ast.value) == lvar for r_ in rets), "C17.RANGE", f.qual + "|returns the list", where(f), "returns the collected boundaries", "range() does not return the collected list")
     R.check(len(whiles) in (1, 2), "C17.RANGE", f.qual + "|loops", where(f), "%d enumeration loop(s)" % len(whiles), "unexpected number of loops", nontrivial=False)
 
 
@@ -350,10 +367,13 @@ def calfield(ctx, R):
     P = ctx.P
     # (1) step is only ever applied to floor/step results inside the interval class (boundaries), or to offset()'s own argument
     n = 0
-    for mname in ("round", "floor", "ceil", "offset", "range", "__call__"):
-        f = P.method(P.cls(IV), mname)
-        if f is None:
+    ivc = P.cls(IV)
+    seen_f = set()
+    for mname, f in sorted(ivc.methods.items()):
+        if f is None or f.qual in seen_f or not f.params:
             continue
+        seen_f.add(f.qual)
+        mname = f.name
         R.saw(f)
         selfn = f.params[0]
         for c in calls_in(f.node):
@@ -363,6 +383,20 @@ def calfield(ctx, R):
                 ok = _is_boundary_expr(f, a, selfn, set())
                 if mname == "offset" and isinstance(a, ast.Name) and a.id in f.params:
                     ok = True
+                if not ok and isinstance(a, ast.Name) and a.id in f.params and mname.startswith("_"):
+                    # a private helper: the value comes from its callers inside the class
+                    pi = f.params.index(a.id) - 1
+                    sites = []
+                    for g in set(ivc.methods.values()):
+                        if not g.params:
+                            continue
+                        for c2 in calls_in(g.node):
+                            if isinstance(c2.func, ast.Attribute) and c2.func.attr == mname and isinstance(c2.func.value, ast.Name) and c2.func.value.id == g.params[0] and len(c2.args) > pi >= 0:
+                                sites.append((g, c2.args[pi]))
+                    ok = bool(sites) and all(_is_boundary_expr(g, x, g.params[0], set()) for g, x in sites)
+                    # the helper may advance the parameter itself by whole steps
+                    reasg = [n_ for n_ in ast.walk(f.node) if isinstance(n_, ast.Assign) and any(isinstance(t, ast.Name) and t.id == a.id for t in n_.targets)]
+                    ok = ok and all(_is_boundary_expr(f, n_.value, selfn, {a.id}) for n_ in reasg)
                 R.check(ok, "C17.CALFIELD", "%s|step(%s, ..)" % (f.qual, ntext(a)[:30]), where(f, c), "step is applied to a unit boundary (floor/step result)", "`%s` steps `%s`, which is not known to be a unit boundary: month/year steps keep the day of month and raise ValueError for the 29th-31st" % (ntext(c)[:60], ntext(a)[:40]))
     R.check(n >= 3, "C17.CALFIELD.inventory", "step applications examined: %d" % n, "", "", "fewer step applications than expected", nontrivial=False)
     # (2) replace(month=..)/replace(year=..) without day= only in the month/year step helpers; replace(day=e) only with e == 1
